@@ -667,9 +667,6 @@ func runConn(work, prop string) {
 	if e.thorough() {
 		n = 4000
 	}
-	if os_getenv("VERIF_SEARCH") != "" {
-		n *= 3
-	}
 	for i := 0; i < n; i++ {
 		m := modes[i%4]
 		r := newConnRun(e, m[0], m[1])
